@@ -46,6 +46,19 @@ Theorem C18_v1_move_refuted :
   /\ w_err s = None.
 Proof. exact v1_move_refuted. Qed.
 
+(** Same outcome when the operation is registered nowhere at the time it moves from a v2 to a v1 task. *)
+Theorem C18_v2_to_v1_move_after_delivery_refuted :
+  let c := mkWcfg true false [KSt] in
+  let tr := [APoll 0 0 (Some 0); AHost 0 1; ADeliver 0 None; APoll 1 0 None; ADrop 1 0 None] in
+  let s := final c tr in
+  valid_trace c tr = false
+  /\ valid_trace c [APoll 0 0 (Some 0); AHost 0 1; ADeliver 0 None] = true
+  /\ in_some_map (final c [APoll 0 0 (Some 0); AHost 0 1; ADeliver 0 None]) 1 = false
+  /\ o_phase (get_op s 0) = OGone
+  /\ t_map (get_task s 1) = [(1, 0)]
+  /\ w_err s = None.
+Proof. exact v2_to_v1_move_after_delivery_refuted. Qed.
+
 (** Non-vacuity: [valid_move_example] in WaitOpInv.v (a v2->v2 move racing with a queued completion);
     one more: partial progress of an async call, then a cancellation race lost to RETURNED. *)
 Example C18_example_subtask :
@@ -56,3 +69,4 @@ Proof. vm_compute. repeat split. Qed.
 
 Print Assumptions C18_invariant_one_operation_partial.
 Print Assumptions C18_v1_move_refuted.
+Print Assumptions C18_v2_to_v1_move_after_delivery_refuted.
